@@ -191,12 +191,16 @@ impl Language for Go {
     fn write_type_alias(&mut self, w: &mut dyn Write, ty: &RustTypeAlias) -> std::io::Result<()> {
         write_comments(w, 0, &ty.comments)?;
 
+        // the target is written like a field's type: a type whose name holds a configured acronym is declared
+        // with the acronym in upper case, so a reference to it has to be spelled the same way
+        let target = self
+            .format_type(&ty.r#type, &[])
+            .map_err(|e| std::io::Error::new(std::io::ErrorKind::Other, e))?;
         writeln!(
             w,
             "type {} {}\n",
             self.acronyms_to_uppercase(&ty.id.renamed),
-            self.format_type(&ty.r#type, &[])
-                .map_err(|e| std::io::Error::new(std::io::ErrorKind::Other, e))?
+            self.acronyms_to_uppercase(&target)
         )?;
 
         Ok(())
